@@ -8,7 +8,9 @@
     estimate(DX, DY, mapping_sample_size_order)         → the PARAMETER `est` (modelled by C05)
 
   What the model's input is.  A graph arrives as the matrix of its entries, `Mat = List (List Nat)`
-  (row major).  Nested lists / tuples (`np.asarray`), dense `ndarray`s of any dtype, `np.matrix` and scipy
+  (row major).  Nested lists / tuples and dense `ndarray`s of any dtype and any memory layout, `np.matrix`
+  (the code makes them one C-contiguous array with `np.ascontiguousarray` before calling csgraph — /repo commit
+  fc69e2e; before it a transposed, Fortran-ordered or fancy-indexed, i.e. relabelled, array raised `ValueError`) and scipy
   sparse matrices of every format (CSR/CSC/COO/LIL/DOK/BSR/DIA; the code converts them with `.tocsr()`
   before calling csgraph — /repo commit f0487ca; before it COO/DOK/BSR/DIA inputs with nnz ≥ n²/4 raised
   `ValueError`) are containers of that same matrix; unpacking the container is left to the correspondence
